@@ -6,6 +6,7 @@ import (
 	"testing"
 	"time"
 
+	"github.com/openconfig/gnmi/zzverif/vatomic"
 	"github.com/openconfig/gnmi/zzverif/vrt"
 )
 
@@ -13,6 +14,10 @@ type toy struct {
 	name string
 	f    func() Outcome // runs inside vrt main thread
 	opt  vrt.Options
+	// delay selects delay bounding (every departure from the default scheduler
+	// costs one) instead of pre-emption bounding
+	delay  bool
+	sigObs bool
 }
 
 type toyH struct{ toys []toy }
@@ -30,8 +35,17 @@ func (h toyH) Run(cfg Config, ch vrt.Chooser, trace bool) (Outcome, *vrt.Result)
 	var out Outcome
 	o := t.opt
 	o.Trace = trace
-	o.FreeSwitch = true
+	o.FreeSwitch = !t.delay
+	o.Reverse = cfg.Reverse
 	res := vrt.Run(ch, o, func() { out = t.f() })
+	if c, ok := ch.(*chooser); ok && t.sigObs {
+		// the observation identifies the schedule (the choice taken at every
+		// scheduling point), not just its visible effect
+		out.Obs += "#"
+		for _, p := range c.pts {
+			out.Obs += fmt.Sprint(p.chosen)
+		}
+	}
 	if res.Aborted != "" {
 		out.Violations = append(out.Violations, Violation{Class: "abort:" + res.Aborted[:8], Msg: res.Aborted + fmt.Sprint(res.Parked)})
 	}
@@ -278,5 +292,214 @@ func TestDeterminism(t *testing.T) {
 	}
 	if r1.TraceSig != r2.TraceSig || r1.TraceSig == r0.TraceSig {
 		t.Errorf("sigs: default %x, dev %x, dev again %x", r0.TraceSig, r1.TraceSig, r2.TraceSig)
+	}
+}
+
+func binom(n, k int) int64 {
+	r := int64(1)
+	for i := 1; i <= k; i++ {
+		r = r * int64(n-k+i) / int64(i)
+	}
+	return r
+}
+
+// TestEnumerationIsCompleteAndDuplicateFree: two threads of k scheduling
+// points each have exactly C(2k, k) interleavings. With the bound raised until
+// no level adds executions, every interleaving must be produced exactly once
+// (Obs counts executions per observed order), under both bounding disciplines.
+func TestEnumerationIsCompleteAndDuplicateFree(t *testing.T) {
+	for _, delay := range []bool{false, true} {
+		for k := 1; k <= 4; k++ {
+			k := k
+			ty := toy{name: fmt.Sprintf("interleavings-%d", k), delay: delay, sigObs: true, f: func() Outcome {
+				var log []byte
+				for id := 0; id < 2; id++ {
+					id := id
+					vrt.Go(func() {
+						for i := 0; i < k; i++ {
+							vrt.Yield()
+							log = append(log, byte('a'+id))
+						}
+					})
+				}
+				vrt.Idle()
+				return Outcome{Obs: string(log)}
+			}}
+			r := exploreToy(t, ty, 3*k+6)
+			orders := map[string]bool{}
+			for o, n := range r.Obs {
+				orders[o[:2*k]] = true
+				if n != 1 {
+					t.Errorf("delay=%v k=%d: schedule %s executed %d times", delay, k, o, n)
+				}
+			}
+			if want := binom(2*k, k); int64(len(orders)) != want {
+				t.Errorf("delay=%v k=%d: %d distinct interleavings, want %d", delay, k, len(orders), want)
+			}
+			if r.Execs != int64(len(r.Obs)) {
+				t.Errorf("delay=%v k=%d: %d executions for %d distinct schedules", delay, k, r.Execs, len(r.Obs))
+			}
+			// each thread has k+1 scheduling points (its start and k yields): the
+			// number of schedules is exactly C(2k+2, k+1), under either discipline
+			if want := binom(2*k+2, k+1); r.Execs != want {
+				t.Errorf("delay=%v k=%d: %d schedules, want %d", delay, k, r.Execs, want)
+			}
+			t.Logf("delay=%v k=%d: %d schedules, %d interleavings", delay, k, len(r.Obs), len(orders))
+		}
+	}
+}
+
+// TestBoundLevelsPartitionSchedules: level b contributes exactly the schedules
+// with b deviations: no schedule appears at two levels, and once the bound is
+// high enough all 6!/(2!2!2!) = 90 interleavings of 3 threads x 2 steps exist.
+func TestBoundLevelsPartitionSchedules(t *testing.T) {
+	for _, delay := range []bool{false, true} {
+		ty := toy{name: "levels", delay: delay, sigObs: true, f: func() Outcome {
+			var log []byte
+			for id := 0; id < 3; id++ {
+				id := id
+				vrt.Go(func() {
+					for i := 0; i < 2; i++ {
+						vrt.Yield()
+						log = append(log, byte('a'+id))
+					}
+				})
+			}
+			vrt.Idle()
+			return Outcome{Obs: string(log)}
+		}}
+		h := toyH{[]toy{ty}}
+		w := &worker{h: h, cfgs: h.Configs(""), known: map[string]bool{}, maxVio: 1000, obsLimit: 1000000}
+		seen := map[string]int{}
+		orders := map[string]bool{}
+		var total int64
+		var perLevel []int64
+		for b := 0; b <= 14; b++ {
+			r := w.process(Item{Cfg: 0, Bound: b})
+			for o, n := range r.Obs {
+				if lv, dup := seen[o]; dup || n != 1 {
+					t.Errorf("schedule %s produced at level %d and again at level %d (x%d)", o, lv, b, n)
+				}
+				seen[o] = b
+				orders[o[:6]] = true
+			}
+			total += r.Execs
+			perLevel = append(perLevel, r.Execs)
+		}
+		if len(orders) != 90 || total != int64(len(seen)) {
+			t.Errorf("delay=%v: %d interleavings (want 90), %d executions for %d schedules", delay, len(orders), total, len(seen))
+		}
+		// 3 threads x 3 scheduling points: 9!/(3!3!3!) = 1680 schedules in all.
+		// Level 0 is the single default schedule under delay bounding and the
+		// 3! non-pre-emptive orders under pre-emption bounding.
+		l0 := int64(6)
+		if delay {
+			l0 = 1
+		}
+		if perLevel[0] != l0 || perLevel[len(perLevel)-1] != 0 || total != 1680 {
+			t.Errorf("delay=%v: level sizes %v (total %d): want level 0 = %d, total 1680, last level empty", delay, perLevel, total, l0)
+		}
+		t.Logf("delay=%v level sizes %v", delay, perLevel)
+	}
+}
+
+// TestUnlockPoints: a write after the critical section races with the other
+// thread's critical section only if the scheduler can switch right after
+// Unlock.
+func TestUnlockPoints(t *testing.T) {
+	mk := func(up bool) toy {
+		return toy{name: fmt.Sprintf("unlockpoints-%v", up), opt: vrt.Options{UnlockPoints: up}, f: func() Outcome {
+			x, y := 0, 0
+			var mu vrt.Mutex
+			vrt.Go(func() {
+				mu.Lock()
+				x = 1
+				mu.Unlock()
+				y = 1 // published after the unlock, no scheduling point of its own
+			})
+			obs := ""
+			vrt.Go(func() {
+				mu.Lock()
+				obs = fmt.Sprint(x, y)
+				mu.Unlock()
+			})
+			vrt.Idle()
+			return Outcome{Obs: obs}
+		}}
+	}
+	if r := exploreToy(t, mk(false), 3); r.Obs["1 0"] != 0 {
+		t.Errorf("without unlock points x=1,y=0 should be unobservable: %v", r.Obs)
+	}
+	if r := exploreToy(t, mk(true), 1); r.Obs["1 0"] == 0 || r.Obs["0 0"] == 0 || r.Obs["1 1"] == 0 {
+		t.Errorf("with unlock points all of 00, 10, 11 are reachable within 1 pre-emption: %v", r.Obs)
+	}
+}
+
+// TestReverseDefault: the newest-first default scheduler produces the mirror
+// order at bound 0 and the same set of interleavings when unbounded.
+func TestReverseDefault(t *testing.T) {
+	ty := toy{name: "reverse", delay: true, f: func() Outcome {
+		var log []byte
+		for id := 0; id < 3; id++ {
+			id := id
+			vrt.Go(func() {
+				vrt.Yield()
+				log = append(log, byte('a'+id))
+			})
+		}
+		vrt.Idle()
+		return Outcome{Obs: string(log)}
+	}}
+	h := toyH{[]toy{ty}}
+	cfgs := WithReverse(h.Configs(""))
+	if len(cfgs) != 2 || !cfgs[1].Reverse {
+		t.Fatalf("WithReverse: %+v", cfgs)
+	}
+	w := &worker{h: h, cfgs: cfgs, known: map[string]bool{}, maxVio: 1000, obsLimit: 1000}
+	first := func(ci int) string {
+		r := w.process(Item{Cfg: ci, Bound: 0})
+		for o := range r.Obs {
+			return o
+		}
+		return ""
+	}
+	if a, b := first(0), first(1); a != "abc" || b != "cba" {
+		t.Errorf("bound 0: oldest-first %q, newest-first %q", a, b)
+	}
+	for ci := range cfgs {
+		all := map[string]bool{}
+		for b := 0; b <= 6; b++ {
+			for o := range w.process(Item{Cfg: ci, Bound: b}).Obs {
+				all[o] = true
+			}
+		}
+		if len(all) != 6 {
+			t.Errorf("cfg %d: %d of 6 orders reachable: %v", ci, len(all), all)
+		}
+	}
+}
+
+// TestAtomicsAreSchedulingPoints: a check-then-act on an atomic flag admits
+// two winners only if the scheduler can switch between the load and the store.
+func TestAtomicsAreSchedulingPoints(t *testing.T) {
+	ty := toy{name: "atomic-flag", f: func() Outcome {
+		var flag vatomic.Bool
+		var winners vatomic.Int32
+		for i := 0; i < 2; i++ {
+			vrt.Go(func() {
+				if !flag.Load() {
+					flag.Store(true)
+					winners.Add(1)
+				}
+			})
+		}
+		vrt.Idle()
+		return Outcome{Obs: fmt.Sprint(winners.Load())}
+	}}
+	if r := exploreToy(t, ty, 0); len(r.Obs) != 1 || r.Obs["1"] == 0 {
+		t.Errorf("bound 0: one winner expected: %v", r.Obs)
+	}
+	if r := exploreToy(t, ty, 1); r.Obs["2"] == 0 {
+		t.Errorf("bound 1: both threads must be able to win: %v", r.Obs)
 	}
 }
